@@ -72,6 +72,11 @@ enum Op {
     InCurrentSpan { t: u8, fut: u8, lib: bool, ready_after: u8, emits: bool },
     Poll { t: u8, fut: u8 },
     DropFuture { t: u8, fut: u8 },
+    /// `instrumented.into_inner()`: the wrapper gives up its span handle, the wrapped future is
+    /// dropped afterwards, outside the span
+    IntoInner { t: u8, fut: u8 },
+    /// `to.clone_from(&from)` on two occupied slots
+    CloneFrom { t: u8, from: u8, to: u8 },
     SwitchDefault { t: u8, sel: Sel },
 }
 #[derive(Clone, Debug, Serialize, Deserialize)]
@@ -137,7 +142,26 @@ impl Drop for TestFut {
         }
     }
 }
-type BoxFut = Pin<Box<dyn Future<Output = ()> + Send>>;
+/// the instrumented future of either library, kept with its concrete type so that it can also be
+/// taken apart again with `into_inner`
+enum BoxFut {
+    T(Pin<Box<tracing::instrument::Instrumented<TestFut>>>),
+    F(Pin<Box<tracing_futures::Instrumented<TestFut>>>),
+}
+impl BoxFut {
+    fn as_mut(&mut self) -> Pin<&mut (dyn Future<Output = ()> + Send)> {
+        match self {
+            BoxFut::T(b) => b.as_mut(),
+            BoxFut::F(b) => b.as_mut(),
+        }
+    }
+    fn into_inner(self) -> TestFut {
+        match self {
+            BoxFut::T(b) => Pin::into_inner(b).into_inner(),
+            BoxFut::F(b) => Pin::into_inner(b).into_inner(),
+        }
+    }
+}
 
 fn noop_waker() -> Waker {
     fn clone(_: *const ()) -> RawWaker {
@@ -408,6 +432,8 @@ fn run_case(case: &Case) -> Outcome {
                 Op::Instrument { t, slot, fut, lib, ready_after, emits, panics } => Op::Instrument { t, slot: o(slot), fut, lib, ready_after, emits, panics },
                 Op::Poll { t, fut } => Op::Poll { t, fut: fo(fut) },
                 Op::DropFuture { t, fut } => Op::DropFuture { t, fut: fo(fut) },
+                Op::IntoInner { t, fut } => Op::IntoInner { t, fut: fo(fut) },
+                Op::CloneFrom { t, from, to } => Op::CloneFrom { t, from: o(from), to: o(to) },
                 other => other,
             }
         };
@@ -830,9 +856,9 @@ fn run_case(case: &Case) -> Outcome {
                         let sp = Arc::try_unwrap(sp).ok().expect("unique");
                         let inner = TestFut { remaining: ready_after % 4, emits, panics };
                         let b: BoxFut = if lib {
-                            Box::pin(tracing_futures::Instrument::instrument(inner, sp))
+                            BoxFut::F(Box::pin(tracing_futures::Instrument::instrument(inner, sp)))
                         } else {
-                            Box::pin(tracing::Instrument::instrument(inner, sp))
+                            BoxFut::T(Box::pin(tracing::Instrument::instrument(inner, sp)))
                         };
                         fl.lock().unwrap()[f] = Some(b);
                     })
@@ -853,9 +879,9 @@ fn run_case(case: &Case) -> Outcome {
                     st.run(t, move |_| {
                         let inner = TestFut { remaining: ready_after % 4, emits, panics: false };
                         let b: BoxFut = if lib {
-                            Box::pin(tracing_futures::Instrument::in_current_span(inner))
+                            BoxFut::F(Box::pin(tracing_futures::Instrument::in_current_span(inner)))
                         } else {
-                            Box::pin(tracing::Instrument::in_current_span(inner))
+                            BoxFut::T(Box::pin(tracing::Instrument::in_current_span(inner)))
                         };
                         fl.lock().unwrap()[f] = Some(b);
                     })
@@ -939,6 +965,60 @@ fn run_case(case: &Case) -> Outcome {
                             drop(fu);
                         })
                     }
+                }
+            }
+            Op::IntoInner { t, fut } => {
+                let (t, f) = (t as usize % NT, fut as usize % NFUT);
+                match m.futs[f].take() {
+                    None => {
+                        skipped = true;
+                        Ok(())
+                    }
+                    Some(x) => {
+                        if !x.done && i < user_len {
+                            fut_mid = true;
+                        }
+                        classes.push("instrumented_into_inner".into());
+                        m.close(x.h, t);
+                        if x.emits {
+                            m.event(t, "dropfut");
+                        }
+                        let fl = futs.clone();
+                        st.run(t, move |_| {
+                            let fu = fl.lock().unwrap()[f].take().unwrap();
+                            let inner = fu.into_inner();
+                            drop(inner);
+                        })
+                    }
+                }
+            }
+            Op::CloneFrom { t, from, to } => {
+                let (t, f, s) = (t as usize % NT, from as usize % NSLOT, to as usize % NSLOT);
+                if m.slots[f].is_none() || m.slots[s].is_none() || f == s || !free(&m, s) {
+                    skipped = true;
+                    Ok(())
+                } else {
+                    // `*to = from.clone()`: the clone first, then the old value of `to` is dropped
+                    let h = m.slots[f].unwrap();
+                    let old = m.slots[s].take().unwrap();
+                    if let H::On { .. } = h {
+                        n_clone += 1;
+                    }
+                    let nh = m.clone_handle(h, t);
+                    if let H::On { id, .. } = nh {
+                        creator_thread.entry(id).or_insert(t);
+                    }
+                    m.close(old, t);
+                    m.slots[s] = Some(nh);
+                    if let (H::On { col: a, .. }, H::On { col: b, .. }) = (h, old) {
+                        classes.push(if a != b { "clone_from_across_collectors".into() } else { "clone_from_same_collector".into() });
+                    }
+                    let sl = slots.clone();
+                    st.run(t, move |_| {
+                        let src = sl.lock().unwrap()[f].clone().unwrap();
+                        let mut g = sl.lock().unwrap();
+                        Arc::get_mut(g[s].as_mut().unwrap()).expect("unique").clone_from(&src);
+                    })
                 }
             }
             Op::SwitchDefault { t, sel } => {
@@ -1114,6 +1194,8 @@ impl Property for C03 {
             1 => (t(), f(), any::<bool>(), 0u8..4, any::<bool>()).prop_map(|(t, fut, lib, ready_after, emits)| Op::InCurrentSpan { t, fut, lib, ready_after, emits }),
             4 => (t(), f()).prop_map(|(t, fut)| Op::Poll { t, fut }),
             2 => (t(), f()).prop_map(|(t, fut)| Op::DropFuture { t, fut }),
+            1 => (t(), f()).prop_map(|(t, fut)| Op::IntoInner { t, fut }),
+            2 => (t(), s(), s()).prop_map(|(t, from, to)| Op::CloneFrom { t, from, to }),
             3 => (t(), sel.clone()).prop_map(|(t, sel)| Op::SwitchDefault { t, sel }),
         ];
         let max = tier.pick(40usize, 60usize);
